@@ -1,10 +1,25 @@
-"""C11"""
-CONTRACT_MODULES = ['simulator_volume', 'simulator_ssa', 'random_', 'simulator_interfaces', 'types_propensities', 'types_volume']
+"""C11 - Volume-aware simulation scales rates with volume and tracks growth and division."""
+import os
+CONTRACT_MODULES = ['simulator_volume', 'simulator_ssa', 'random_', 'simulator_interfaces', 'types_propensities', 'types_volume', 'types_model_shapes', 'types_terms']
 SPEC_MODULES = ['functions', 'lemmas_prob']
 LEVEL = 'proof'
-NOT_APPLICABLE = 'under construction'
-ASSUMPTIONS = []
+ASSUMPTIONS = [
+    'constant-volume law: the step relation with the volume-scaled propensities (C01 VOL/STOVOL closed forms) is that of the SSA; per-step laws -> distribution is cited (as C05)',
+    '0.69314718056 is taken as ln 2',
+    'the bracket "within one time step of the growth law" follows from one volume step per delta (clause delta-clock-advances-only-when-it-fires) and the step-law lemmas by induction over steps (argument)',
+    'DelayVolumeSSASimulator is not under contract (see C07)',
+]
 TRUSTED = []
-EXPLANATION = ''
-LEVEL_TEXT = ''
-LEVEL_NOTE = ''
+EXPLANATION = ('R_vol verified on the real VolumeSSASimulator loop body (volume rules first, volume-scaled propensities, delta clock, volume step exactly when the clock fires, '
+               'rows get the pre-step volume, cut at division); volume classes against exponential growth increments and division tests; volume-scaled rate laws are C01.')
+LEVEL_TEXT = 'Deductive proof of the per-step semantics for any network/grid/stream and of the volume-scaled closed forms; growth-law lemmas by SMT.'
+LEVEL_NOTE = 'See assumptions.'
+_HERE = os.path.dirname(os.path.dirname(os.path.abspath(__file__)))
+
+
+def _sweep(seed, rec):
+    src = open(os.path.join(_HERE, 'native', 'C11_sweep.py')).read()
+    return src.replace("json.loads(sys.argv[1]) if len(sys.argv) > 1 else {}", repr(dict(seed=seed)))
+
+
+NATIVE_SWEEPS = {'*': _sweep}
